@@ -57,6 +57,9 @@ pub enum Fault {
     SpawnDelay { spawn: usize, ns: u64 },
     /// the whole process freezes for `ns` at `offset` ns after `go` number `go` is read
     PauseAll { go: usize, offset: u64, ns: u64 },
+    /// search thread number `search` is descheduled for `ns` right before its `send`-th channel
+    /// send (0-based), i.e. between the root's acceptance test and the hand-over
+    StallBeforeSend { search: usize, send: u64, ns: u64 },
 }
 
 #[derive(Clone, Debug)]
@@ -231,6 +234,8 @@ pub struct SimThread {
     max_nodes: u64,
     fired: Vec<String>,
     search_index: Option<usize>,
+    send_stalls: Vec<(u64, u64)>,
+    sends_started: u64,
 }
 
 pub trait SeamDescribe {
@@ -370,24 +375,47 @@ impl SimThread {
         let _ = self.enter(true);
     }
 
+    /// scheduling point of a channel send, with the injected "descheduled right before the
+    /// hand-over" stall
+    pub fn before_send(&mut self) {
+        let idx = self.sends_started;
+        self.sends_started += 1;
+        if let Some(pos) = self.send_stalls.iter().position(|(i, _)| *i == idx) {
+            let (_, ns) = self.send_stalls.remove(pos);
+            self.fired.push(format!("stall_before_send +{}us at send {}", ns / 1000, idx));
+            self.advance(ns);
+        }
+        let _ = self.enter(true);
+    }
+
     pub fn effect_point_nounwind(&mut self) {
         let _ = self.enter(false);
     }
 
     pub fn note(&mut self, what: &str) {
         let mut k = self.lock();
+        if k.aborting {
+            // the simulated process is gone; threads unwinding concurrently must not log
+            return;
+        }
         let t = self.lt;
         k.events.push(Ev { t, tid: self.id, kind: EvKind::Note(what.to_string()) });
     }
 
     pub fn note_send(&mut self, seq: u64, ok: bool, desc: String) {
         let mut k = self.lock();
+        if k.aborting {
+            return;
+        }
         let t = self.lt;
         k.events.push(Ev { t, tid: self.id, kind: EvKind::Send { seq, ok, desc } });
     }
 
     pub fn note_recv(&mut self, what: u8) {
         let mut k = self.lock();
+        if k.aborting {
+            return;
+        }
         let t = self.lt;
         let kind = match what {
             0 => EvKind::RecvOk,
@@ -407,6 +435,9 @@ impl SimThread {
 
     pub fn probe(&mut self, tag: &str, board: BoardState, table: Vec<(u64, u8)>) {
         let mut k = self.lock();
+        if k.aborting {
+            return;
+        }
         let idx = k.probes.len();
         k.probes.push(ProbeSnap { tag: tag.to_string(), board, table });
         let t = self.lt;
@@ -544,6 +575,15 @@ impl SimThread {
                 _ => None,
             })
             .collect();
+        let send_stalls: Vec<(u64, u64)> = k
+            .cfg
+            .faults
+            .iter()
+            .filter_map(|fa| match fa {
+                Fault::StallBeforeSend { search, send, ns } if *search == search_idx => Some((*send, *ns)),
+                _ => None,
+            })
+            .collect();
         let t = self.lt;
         if delay > 0 {
             k.events.push(Ev { t, tid: self.id, kind: EvKind::FaultFired(format!("spawn_delay +{}us", delay / 1000)) });
@@ -569,6 +609,8 @@ impl SimThread {
             max_nodes: k.cfg.max_nodes_per_search,
             fired: vec![],
             search_index: Some(search_idx),
+            send_stalls,
+            sends_started: 0,
         };
         st.advance(delay);
         let handle = std::thread::Builder::new()
@@ -956,6 +998,8 @@ pub fn run_sim(cfg: SimConfig, entry: Box<dyn FnOnce() + Send + 'static>) -> Sim
         max_nodes: u64::MAX,
         fired: vec![],
         search_index: None,
+        send_stalls: vec![],
+        sends_started: 0,
     };
     let io = std::thread::Builder::new()
         .name("sim-io".into())
